@@ -41,6 +41,9 @@ func main() {
 	if a.Stride <= 0 {
 		a.Stride = 1
 	}
+	if a.Tier == "thorough" {
+		realBudget = 120 * time.Second
+	}
 	mon.Open()
 	if a.Engine != "hostile" {
 		mon.StartDeadlockWatch(a.Prop, a.Engine, 20*time.Second, func() { os.Exit(0) })
